@@ -108,7 +108,7 @@ def _run_checks(name, props, scale, repo_dir, pythonpath):
         clause = [ln.strip() for ln in p.stdout.splitlines() if ln.strip().startswith('clause=')]
         out[pid] = {'exit': p.returncode, 'caught': p.returncode == 1 and bool(viol), 'first_clause': clause[0][:300] if clause else None,
                     'seconds': round(time.time() - t0, 1)}
-        print('  %s -> exit %d %s %s' % (pid, p.returncode, 'CAUGHT' if out[pid]['caught'] else 'not caught', (clause[0][:160] if clause else '')))
+        print('  %s -> exit %d %s %s' % (pid, p.returncode, 'CAUGHT' if out[pid]['caught'] else 'not caught', (clause[0][:260] if clause else '')))
         if p.returncode == 2:
             print(p.stdout[-800:], p.stderr[-800:])
     shutil.rmtree(scratch, ignore_errors=True)
@@ -154,6 +154,32 @@ def detect_in_repo(name, props):
     save_meta(name, m)
 
 
+def benign(name, props, scale):
+    """A property-preserving change written by an independent sub-agent: NO check may raise an alarm on it."""
+    d = os.path.join(HERE, 'benign', name)
+    m = json.load(open(os.path.join(d, 'meta.json'))) if os.path.exists(os.path.join(d, 'meta.json')) else {'name': name}
+    props = props or ['C05', 'C07', 'C08', 'C09', 'C10', 'C11', 'C12', 'C16', 'C17', 'C18', 'C19']
+    copy = '/dev/shm/pipesim-benigncopy-%d' % os.getpid()
+    shutil.rmtree(copy, ignore_errors=True)
+    os.makedirs(copy)
+    shutil.copytree('/repo/sedfitter', os.path.join(copy, 'sedfitter'), ignore=shutil.ignore_patterns('__pycache__', '*.pyc'))
+    r = sh(['patch', '-p1', '-s', '-i', os.path.join(d, 'patch.diff')], cwd=copy)
+    if r.returncode:
+        raise SystemExit('patch failed: ' + r.stdout + r.stderr)
+    try:
+        print('%s (benign):' % name)
+        res = _run_checks(name, props, scale, copy, copy + os.pathsep + HERE)
+    finally:
+        shutil.rmtree(copy, ignore_errors=True)
+    for k, v in res.items():
+        v['quiet'] = v['exit'] == 0
+    m.setdefault('checks', {}).update(res)
+    m['alarms'] = sorted(k for k, v in m['checks'].items() if not v['quiet'])
+    with open(os.path.join(d, 'meta.json'), 'w') as f:
+        json.dump(m, f, indent=1, sort_keys=True)
+    return not m['alarms']
+
+
 if __name__ == '__main__':
     a = sys.argv[1:]
     if not a:
@@ -170,3 +196,9 @@ if __name__ == '__main__':
         detect(a[1], a[2:], scale)
     elif a[0] == 'detect-in-repo':
         detect_in_repo(a[1], a[2:])
+    elif a[0] == 'benign':
+        scale = 0.25
+        if '--scale' in a:
+            scale = float(a[a.index('--scale') + 1])
+            a = a[:a.index('--scale')] + a[a.index('--scale') + 2:]
+        sys.exit(0 if benign(a[1], a[2:], scale) else 1)
